@@ -360,3 +360,73 @@ func sameFieldLoad(a, b ssa.Value) bool {
 	fb, ok2 := lb.X.(*ssa.FieldAddr)
 	return ok1 && ok2 && fa.Field == fb.Field && (fa.X == fb.X || core.SameValue(fa.X, fb.X))
 }
+
+// ---------------------------------------------------------------------------
+// R-DEADCOPY: copy(dst, src) immediately followed by dst = src.
+// The copy writes into a slice that is then dropped: whatever it was meant to
+// preserve is lost, which is what happens when the arguments of
+// copy(new, old) are written the wrong way round before `old = new`.
+// ---------------------------------------------------------------------------
+
+func RDeadCopy(c *core.Ctx) {
+	c.Rule("R-DEADCOPY", "no copy(dst, src) into a field-held slice is followed, with no read of that field in between, by the assignment of src itself to that field: such a copy is dead and the entries it should have carried over (copy(new, old); old = new) are lost", 1)
+	p := c.P
+	n := 0
+	for _, fn := range p.ModuleFuncs() {
+		name := core.SSAName(fn)
+		cnt := 0
+		for _, b := range fn.Blocks {
+			for i, ins := range b.Instrs {
+				call, ok := ins.(*ssa.Call)
+				if !ok {
+					continue
+				}
+				bi, ok := call.Call.Value.(*ssa.Builtin)
+				if !ok || bi.Name() != "copy" {
+					continue
+				}
+				dst, src := call.Call.Args[0], call.Call.Args[1]
+				fieldOf := func(v ssa.Value) *ssa.FieldAddr {
+					if ld, ok := v.(*ssa.UnOp); ok {
+						if fa, ok := ld.X.(*ssa.FieldAddr); ok {
+							return fa
+						}
+					}
+					return nil
+				}
+				fa := fieldOf(dst)
+				if fa == nil && fieldOf(src) == nil {
+					continue // neither side is a field-held slice
+				}
+				cnt++
+				n++
+				c.Visit(name)
+				if fa == nil {
+					c.OK(fmt.Sprintf("%s / copy #%d into a field-held slice is not dead", name, cnt), call.Pos(), "copies out of a field into a local slice")
+					continue
+				}
+				dead := token.NoPos
+				for _, later := range b.Instrs[i+1:] {
+					if l2, ok := later.(*ssa.UnOp); ok && l2.Op == token.MUL {
+						if fa2, ok := l2.X.(*ssa.FieldAddr); ok && fa2.Field == fa.Field && core.SameValue(fa2.X, fa.X) {
+							break // the field is read again: the copy is observable
+						}
+					}
+					if st, ok := later.(*ssa.Store); ok {
+						if fa2, ok := st.Addr.(*ssa.FieldAddr); ok && fa2.Field == fa.Field && core.SameValue(fa2.X, fa.X) {
+							if st.Val == src {
+								dead = st.Pos()
+							}
+							break
+						}
+					}
+				}
+				c.Check(dead == token.NoPos, fmt.Sprintf("%s / copy #%d into a field-held slice is not dead", name, cnt), call.Pos(),
+					"the destination field is overwritten with the copy's own source at %s before it is read again: the copy has no effect (arguments the wrong way round?)", p.Pos(dead))
+			}
+		}
+	}
+	if n == 0 {
+		c.Anchor("copy() into a field-held slice")
+	}
+}
